@@ -70,7 +70,7 @@ func debugDump(a *Analyzer, entry, filter string) {
 		for i, t := range e.Args {
 			fmt.Printf("   arg%d: %s\n", i, t.Key())
 		}
-		cl := a.Close(e.Facts, 4)
+		cl := e.Facts
 		for _, k := range cl.SortedKeys() {
 			if strings.HasPrefix(k, "done(") {
 				continue
